@@ -167,6 +167,11 @@ func (rn *runner) multi(e vrt.Entry, r *prng.R, maxIters, maxThreads int) *Scena
 func (rn *runner) soloFunc(e vrt.Entry) {
 	sp := rn.spec
 	if e.New == nil {
+		// a plain entry: consumers that interleave iterators THEMSELVES (sub-iterators handed
+		// out by one generator, consumed in a drawn order); reference vs generated code
+		rn.spec.Oracle = "refeq"
+		rn.refeqFunc(e)
+		rn.spec.Oracle = sp.Oracle
 		return
 	}
 	for vi := 0; vi < sp.ArgVecs; vi++ {
